@@ -361,6 +361,13 @@ class Interp:
                 if isinstance(b, dict) or all(isinstance(x, (str, int, type(None))) for x in b):
                     r = a in b
                     return r if isinstance(op, ast.In) else (not r)
+            if isinstance(b, (tuple, list)):
+                # membership is identity-or-equality: decidable for an empty
+                # container and when the very same abstract object is in it
+                if len(b) == 0:
+                    return isinstance(op, ast.NotIn)
+                if any(x is a for x in b):
+                    return isinstance(op, ast.In)
             return TOP
         raise Unsupported("comparison %s" % type(op).__name__)
 
